@@ -191,6 +191,7 @@ def make_model_class():
             self.extra_construct = None    # callable(model) for C06/C11 (statistics, streams)
             self.extra_action = None       # callable(model, action) for domain actions
             self.on_exec = None            # callable(model, seq, node) before the actions
+            self.on_done = None            # callable(model, seq, node) after the actions
             self.fault_idx = set()         # trace indices whose handler fails (after its actions)
             self.runaway = False
 
@@ -224,6 +225,8 @@ def make_model_class():
             if self.on_exec is not None:
                 self.on_exec(self, seq, node)
             self._actions(self.prog["nodes"][node], seq)
+            if self.on_done is not None:
+                self.on_done(self, seq, node)
             if self.gate_at is not None and len(self.trace) - 1 == self.gate_at:
                 self.reached.set()
                 self.gate.wait(LIVENESS_S)
